@@ -91,6 +91,18 @@ theorem no_needless_delay (limit P : Nat) (hl : 0 < limit) (arrivals : List Nat)
   exact closedStart_eq_arrival limit P _ a
     ((order limit P hl arrivals).sublist (List.take_sublist _ _)) hnowait hfew
 
+/-- C15.no_needless_delay, read at every instant: a waiting call has started by the first instant
+`u ≥ arrival` at which no earlier call is still waiting and fewer than `limit` calls began in the
+preceding period – it is never delayed longer than the rate bound requires. -/
+theorem starts_as_soon_as_allowed (limit P : Nat) (hl : 0 < limit) (arrivals : List Nat) (i a t u : Nat)
+    (ha : arrivals[i]? = some a) (ht : (startTimes limit P arrivals)[i]? = some t) (hau : a ≤ u)
+    (hnowait : ∀ p ∈ (startTimes limit P arrivals).take i, p ≤ u)
+    (hfew : (((startTimes limit P arrivals).take i).filter fun p => decide (u < p + P)).length < limit) :
+    t ≤ u := by
+  rw [start_recurrence limit P hl arrivals i a t ha ht]
+  exact closedStart_le_of_free limit P _ a u hau
+    ((order limit P hl arrivals).sublist (List.take_sublist _ _)) hnowait hfew
+
 /-- C15.all_run (2): finite delay – for a non-decreasing arrival list the `i`-th call (0-based)
 starts at most `⌊i / limit⌋` periods after it arrived. -/
 theorem delay_bound (limit P : Nat) (hl : 0 < limit) (arrivals : List Nat)
@@ -135,6 +147,13 @@ example :
     let st := startTimes 2 10 [0, 1, 11]
     st = [0, 1, 11] ∧ (∀ p ∈ st.take 2, p ≤ 11) ∧
       ((st.take 2).filter fun p => decide (11 < p + 10)).length < 2 := by decide
+
+/-- hypotheses of `starts_as_soon_as_allowed` are satisfiable with a real wait: the third call of a
+burst (limit 2, period 10) may start at 10 and does -/
+example :
+    let st := startTimes 2 10 [0, 0, 0]
+    st = [0, 0, 10] ∧ (∀ p ∈ st.take 2, p ≤ 10) ∧
+      ((st.take 2).filter fun p => decide (10 < p + 10)).length < 2 := by decide
 
 /-- `delay_bound` is tight: call 5 of a burst with limit 2 waits exactly ⌊5/2⌋ = 2 periods -/
 example : (startTimes 2 7 [3, 3, 3, 3, 3, 3])[5]? = some (3 + (5 / 2) * 7) := by decide
